@@ -173,6 +173,8 @@ def commitPending (s : JState) : JState × Bool :=
 def judgeGo (s : JState) (deferredInLastTx : Bool) (k : Nat) : List String → List String → String
   | op :: ops, out :: outs =>
     if out.startsWith "panic" then s!"violation panic op={k} `{op}` {out}" else
+    -- malformed / out-of-protocol op sequences (only produced by the shrinker) are outside the statement
+    if out = "bad-op" ∨ out = "noapp" ∨ out = "busy" then "ok" else
     match toks op with
     | ["cfg", w, cr, _] =>
       match w.toInt?, cr.toInt? with
